@@ -187,6 +187,18 @@ fn check_tag_parse(acc: &mut Acc) {
         cands.push(format!("{n} "));
     }
     cands.extend(["any", "x", "my-tag", "my_tag", "Last-Modified"].map(String::from));
+    // names that are special somewhere else in the protocol or the library, in every letter case
+    for special in ["any", "file", "base", "modified-since", "added-since", "AudioFormat", "prio", "window", "sort", "group"] {
+        cands.extend(case_variants(special));
+        cands.push(special.to_uppercase());
+    }
+    // trailing / leading characters the protocol cannot carry
+    for n in ["Artist", "Mood", "x"] {
+        for junk in ["\n", "\r\n", "\t", " ", "\u{3000}", "\u{a0}", "\0", ":"] {
+            cands.push(format!("{n}{junk}"));
+            cands.push(format!("{junk}{n}"));
+        }
+    }
     // known names with one letter replaced by a non-ASCII character, among them the ones Unicode
     // case mapping folds onto ASCII letters (KELVIN SIGN -> k, LONG S -> S, dotless / dotted I):
     // a lookup that lower- or upper-cases before it validates would take them for the known name
@@ -242,6 +254,33 @@ fn check_tag_parse(acc: &mut Acc) {
                 match Tag::try_from(tag_name(&t).as_str()) {
                     Ok(t2) if t2 == t => {}
                     other => v(acc, "tag-parse-roundtrip", format!("try_from(name({t:?})) = {other:?}"), case),
+                }
+            }
+        }
+    }
+    // parsing has no memory: whatever was parsed before, a string parses to the same tag. Every
+    // ordered pair of candidates that are equal ignoring ASCII case (and a few unrelated ones) is
+    // parsed back to back, with a failing parse in between for half of them.
+    let valid: Vec<&String> = cands.iter().filter(|s| !s.is_empty() && s.len() <= 30 && s.bytes().all(|b| b.is_ascii_alphabetic() || b == b'_' || b == b'-')).collect();
+    for a in &valid {
+        for b in &valid {
+            if a == b || !a.eq_ignore_ascii_case(b) {
+                continue;
+            }
+            for junk_between in [false, true] {
+                acc.evaluations += 1;
+                acc.transitions += 2;
+                acc.nontrivial += 1;
+                // expected from the protocol's name table, not from an earlier answer of the parser
+                let want = named_tags().into_iter().find(|(_, n)| n.eq_ignore_ascii_case(b)).map(|(_, n)| n.to_string()).unwrap_or_else(|| b.to_string());
+                let _ = Tag::try_from("ResetProbe");
+                let _ = Tag::try_from(a.as_str());
+                if junk_between {
+                    let _ = Tag::try_from("not a tag!");
+                }
+                let after = Tag::try_from(b.as_str()).map(|t| tag_name(&t)).map_err(|e| e.to_string());
+                if after.as_deref() != Ok(want.as_str()) {
+                    v(acc, "tag-parse-history-dependent", format!("Tag::try_from({b:?}) right after parsing {a:?} gives {after:?}, its protocol name is {want:?}"), json!({"kind": "tag-parse-history", "first_hex": hex(a.as_bytes()), "second_hex": hex(b.as_bytes())}));
                 }
             }
         }
@@ -327,7 +366,7 @@ pub fn run(tier: Tier) -> i32 {
     let mut cov = Coverage::default();
     cov.evaluations = acc.evaluations;
     cov.distinct_nontrivial = acc.nontrivial;
-    cov.rule = "complete enumeration: all ordered pairs over {31 named tags} U {Other(name) for each name as is / lower / upper / first letter flipped} U {any, x}; all ordered pairs of the analogous subsystem domain; every candidate tag string (name variants, name+x, name minus last letter, every name with one letter replaced by each of 7 non-ASCII characters incl. those Unicode case mapping folds onto ASCII, all strings of length <= 2 over 9 byte classes); every subsystem name (14 + unknown + wrong-case spellings) sent as an idle notification through the real client; non-trivial = pairs of distinct values with equal names, invalid or known-name parse inputs, event names".to_string();
+    cov.rule = "complete enumeration: all ordered pairs over {31 named tags} U {Other(name) for each name as is / lower / upper / first letter flipped} U {any, x}; all ordered pairs of the analogous subsystem domain; every candidate tag string (name variants, name+x, name minus last letter, every name with one letter replaced by each of 7 non-ASCII characters incl. those Unicode case mapping folds onto ASCII, all strings of length <= 2 over 9 byte classes, names that are special elsewhere in the protocol in every letter case, names with leading / trailing characters the protocol cannot carry); every ordered pair of case-variants parsed back to back (parsing has no memory); every subsystem name (14 + unknown + wrong-case spellings) sent as an idle notification through the real client; non-trivial = pairs of distinct values with equal names, invalid or known-name parse inputs, event names".to_string();
     cov.states = acc.evaluations;
     cov.transitions = acc.transitions;
     cov.traces = acc.evaluations;
